@@ -138,6 +138,7 @@ Tgt == Mk3("x", I("1"), "y", Single("z", I("2")), "w", L(<<I("5")>>))
 DocC10(host) ==
   Mk4("t", Tgt, "l", L(<<I("1"), I("2")>>), "s", S("str"), "h", host)
   %% Mk2("k.dot", Single("q", I("1")), "hid", Mk2("$output", False, "v", I("5")))
+  %% Single("t.y", S("a key that is spelled like a path"))
 
 (* [host with a reference, the same host written inline] *)
 Pairs10 == {
@@ -283,7 +284,8 @@ Shape11b(r, a, b, cl, dm, el) ==
                "A", WithMark(Mk2("w", I("2"), "B", WithMark(Single("x", I("3")), b)), a),
                "C", ListMark(<<I("4"), Single("y", WithMark(Single("q", I("5")), dm)), ListMark(<<I("6")>>, el)>>, cl)), r)
 CasesC11b(lazy) ==
-  IF Bound < 2 THEN {}
+  IF Bound < 2 THEN   \* a slice of the six-container shapes: selections that sit only below a list entry
+       {Case(<<Shape11b(r, "n", "n", cl, dm, el)>>, NoEnv, "marks") : r \in {"f", "n"}, cl \in {"n", "f"}, dm \in MarkSet, el \in MarkSet}
   ELSE {Case(<<Shape11b(r, a, b, cl, dm, el)>>, NoEnv, "marks") : r \in MarkSet, a \in MarkSet, b \in MarkSet, cl \in MarkSet, dm \in MarkSet, el \in MarkSet}
 CasesC11(lazy) ==
   CasesC11b(0) \cup
@@ -450,7 +452,9 @@ Vals14 == { S("abc"), S(""), I("42"), F("1.5"), True, EmptyList, EmptyMap,
             L(<<S("a"), S("b")>>), L(<<S("a"), I("1"), F("2.5"), False>>), L(<<L(<<S("x"), S("y")>>), S("z"), L(<<>>)>>),
             Mk2("b", S("2"), "a", S("1")), Mk3("k", S("v"), "e", S(""), "n", I("3")),
             Mk2("multi", L(<<S("p"), S("q")>>), "one", S("r")), L(<<Single("a", S("1")), Mk2("b", S(""), "c", L(<<I("1"), I("2")>>))>>),
-            L(<<Single("a", S("1")), S("notamap")>>), Single("nested", Single("deep", I("1"))) }
+            L(<<Single("a", S("1")), S("notamap")>>), Single("nested", Single("deep", I("1"))),
+            (* list-valued entries are expanded ONE level: a list inside such a list is printed as a value *)
+            Mk2("inc", L(<<L(<<S("a"), S("b")>>), S("c")>>), "k", L(<<L(<<I("1"), I("2")>>), EmptyList, S("")>>)) }
 Structural == {"join", "join:,", "join: - ", "prefix:--", "prefix:", "flatten", "tolist:=", "tolist::", "values", "flags"}
 Malformed == {"join:a:b", "prefix", "prefix:a:b", "flatten:x", "tolist", "tolist:a:b", "values:x", "base64:x", "sha256:1", "json:x", "bogus", ""}
 Codecs14 == {"base64", "sha256", "json", "yaml", "toml"}
